@@ -28,12 +28,13 @@ def toStrs : List Sexp → Option (List String)
 
 mutual
 def toNode : Sexp → Option Node
-  | .list [.atom k, l, .list [inl, ei, lab, ed], .atom st, l0, l1, .list text, .list body, .list els] => do
+  | .list [.atom k, l, .list [inl, ei, lab, ed, nm], .atom st, l0, l1, .list text, .list body, .list els] => do
       let k ← toKind k
       let l ← l.toNat?
       let inl ← inl.toBool?
       let ei ← ei.toBool?
       let ed ← ed.toBool?
+      let nm ← (match nm with | .atom "none" => some none | .str s => some (some s) | _ => none)
       let lab ← (match lab with | .atom "none" => some none | .str s => some (some s) | _ => none)
       let st ← toStatus st
       let l0 ← l0.toNat?
@@ -41,7 +42,7 @@ def toNode : Sexp → Option Node
       let text ← toStrs text
       let body ← toNodes body
       let els ← toNodes els
-      pure (Node.mk ⟨k, l, inl, ei, lab, ed⟩ (st.map fun s => ⟨s, text, l0, l1⟩) body els)
+      pure (Node.mk ⟨k, l, inl, ei, lab, ed, nm⟩ (st.map fun s => ⟨s, text, l0, l1⟩) body els)
   | _ => none
 def toNodes : List Sexp → Option (List Node)
   | [] => some []
